@@ -218,7 +218,7 @@ SCENARIOS = {"queue": make}
 
 
 def run(ctx: Ctx) -> None:
-    bound = 2
+    bound = 2 + int(__import__("os").environ.get("VF_DEEPER", 0))
     maxlen = 4 if ctx.thorough else 3
     n = len(mixes(maxlen))
     ctx.rule = (
